@@ -460,7 +460,7 @@ func c06Legal(sp *c06Spec) bool {
 func init() {
 	p := &mon.Property{
 		ID: "C06",
-		Rule: "Spending transactions (1-4 inputs, 0-4 outputs) with P2PK, P2PKH, CHECKSIGVERIFY, two-check and m-of-n CHECKMULTISIG(VERIFY) locking scripts; OP_CODESEPARATOR inserted at every element position (plain, inside an unexecuted IF, inside an executed IF); each signature slot is correct / signed by another key / over another digest / empty / high-S / undefined hash type / non-DER (only under a DER-enforcing flag); keys compressed, uncompressed, hybrid, truncated, bad prefix, off curve; for n <= 3 every assignment of keys and classes to the m slots; all 2^6 subsets of the signature flags x both eras on a core set; half of the programs end in OP_NOT. " +
+		Rule: "Spending transactions (1-4 inputs, 0-4 outputs) with P2PK, P2PKH, CHECKSIGVERIFY, two-check and m-of-n CHECKMULTISIG(VERIFY) locking scripts; OP_CODESEPARATOR inserted at every element position (plain, inside an unexecuted IF, inside an executed IF); each signature slot is correct / signed by another key / over another digest / empty / high-S / undefined hash type / non-DER (only under a DER-enforcing flag) / correct but with a FORKID bit that contradicts the FORKID flag (only under strict encoding); keys compressed, uncompressed, hybrid, truncated, bad prefix, off curve; for n <= 3 every assignment of keys and classes to the m slots; all 2^6 subsets of the signature flags x both eras on a core set; half of the programs end in OP_NOT. " +
 			"Signatures are produced in two passes (the model first reports the script code in force at each check, then the real signatures are made over the digest the node rules demand) and judged by provenance; the library's verdict and per-step stacks must equal the model's. " +
 			"distinct_nontrivial = distinct (unlock, lock, flags, input) on which at least one signature check was evaluated and both agreed.",
 		Assum: []string{"signature validity in the model = (registered key, registered digest) equals (supplied key, digest demanded by the node rules via /verif/internal/refsighash); real ECDSA is only run by the library",
@@ -476,7 +476,7 @@ func init() {
 			return
 		}
 		c.Info("sighash_model_vectors_reproduced", 1000)
-		classes := []string{"correct", "wrong-key", "wrong-digest", "empty", "high-s", "weird-hashtype", "non-der"}
+		classes := []string{"correct", "wrong-key", "wrong-digest", "empty", "high-s", "weird-hashtype", "non-der", "forkid-bit-mismatch"}
 		keyEncs := []string{"c", "u", "h", "short", "badprefix", "offcurve", "empty"}
 		sepKinds := []string{"plain", "unexecuted-if", "executed-if"}
 		run := func(n uint64, mk func(r *prng.R) *c06Spec, class string) {
@@ -512,6 +512,9 @@ func init() {
 			s := c06Slot{Key: key, Class: class, HashType: c06HashType(r, fork)}
 			if class == "weird-hashtype" {
 				s.HashType = weirdHT(r, fork)
+			}
+			if class == "forkid-bit-mismatch" { // an otherwise correct signature whose FORKID bit contradicts the flag
+				s.HashType ^= 0x40
 			}
 			return s
 		}
